@@ -337,6 +337,28 @@ func c11Calls() []c11Call {
 				return show(&d, err)
 			})
 		}
+		if stdValid(doc) {
+			// per-call options on the long-lived Decoder belong to that call only
+			sharedWith := func(name string, call func(dec *gojson.Decoder, d *c11Dst) error) {
+				add("Decoder(shared) "+name+" "+n, func(h *c11Handles) string {
+					if h.dec == nil {
+						h.decSrc = &c11Feed{}
+						h.dec = gojson.NewDecoder(h.decSrc)
+					}
+					h.decSrc.pending = append(h.decSrc.pending, []byte(doc+"\n")...)
+					var d c11Dst
+					err := call(h.dec, &d)
+					if err != nil {
+						h.dec, h.decSrc = nil, nil
+					}
+					return show(&d, err)
+				})
+			}
+			sharedWith("DecodeWithOption FirstWin", func(dec *gojson.Decoder, d *c11Dst) error {
+				return dec.DecodeWithOption(d, gojson.DecodeFieldPriorityFirstWin())
+			})
+			sharedWith("DecodeContext", func(dec *gojson.Decoder, d *c11Dst) error { return dec.DecodeContext(ctxWith("kd"), d) })
+		}
 		add("Valid "+n, func(*c11Handles) string { return strconv.FormatBool(gojson.Valid([]byte(doc))) })
 		add("Compact "+n, func(*c11Handles) string {
 			var b bytes.Buffer
